@@ -65,14 +65,6 @@ def setOrderOfJson (j : Json) (k : String) : Except String SetOrder := do
   pure fun xs => match table.find? (fun t => t.1 == valKey (.list xs)) with
     | some t => t.2 | none => xs
 
-/-- field names of every Structure class occurring in a declaration -/
-partial def classTbl : FieldDecl → ClassTbl
-  | .struct c fields _ => (c.name, fields.map (·.1)) :: fields.flatMap (fun f => classTbl f.2)
-  | .seqOf _ i _ | .setOf _ i _ | .tupleOf i _ => classTbl i
-  | .seqPos _ is _ _ | .tuplePos is _ | .anyOf is | .oneOf is | .allOf is | .notF is => is.flatMap classTbl
-  | .mapOf k v _ => classTbl k ++ classTbl v
-  | _ => []
-
 def stepsJson (c : ClassOpts) (fields : List (String × FieldDecl)) (O : Oracles) :
     Inst → List Op → List Json
   | _, [] => []
@@ -111,7 +103,7 @@ def run (j : Json) : Except String Json := do
       | [] => []
       | x :: _ =>
         let d := deepcopyI c sDeep x
-        let p := pickleI (classTbl cls) sPickle x
+        let p := pickleI sPickle x
         [("copy", copyJson R defaults x (copyI x)),
          ("deepcopy", copyJson R defaults x d),
          ("pickle", copyJson R defaults x p),
